@@ -73,6 +73,9 @@ def cont_jobs(r, names, per_opt: int, modes=True):
             for mode in ("process", "thread"):
                 jobs.append({"opt": nm, "family": "many-workers", "mode": mode, "workers": 16, "cfg": {"max_cycles": 2, "population_size": min(P0, 12), "fitness_error": None},
                              "task": {"vars": fams["dim3"](), "obj": "sphere", "minmax": r.choice(["min", "max"]), "seed": r.randint(0, 10**6)}})
+        # an enormous cycle budget that a generous fitness_error ends after one cycle, and a narrow box far from the origin
+        jobs.append({"opt": nm, "family": "huge-budget", "cfg": {"max_cycles": r.choice([100000, 1000000]), "population_size": P0, "fitness_error": 1e9},
+                     "task": {"vars": fams["dim3"](), "obj": "sphere", "minmax": r.choice(["min", "max"]), "seed": r.randint(0, 10**6)}})
         # the optional stop options left as None (accepted by the validators): the run must complete
         if nm in names[:3] or r.random() < 0.05:
             jobs.append({"opt": nm, "family": "none-stop-options", "cfg": {"max_cycles": 3, "population_size": P0, "fitness_error": None,
